@@ -4,7 +4,6 @@ package core
 
 import (
 	"context"
-	"sync/atomic"
 
 	"github.com/ethereum/go-ethereum/common"
 	"github.com/ethereum/go-ethereum/common/lru"
@@ -21,22 +20,6 @@ import (
 
 // White-box accessors for sim/execsim (added through go build -overlay, never part of
 // the shipped tree). They add symbols and change no behaviour.
-
-// VerifExecsimSetupState returns the state instance BlockChain.ProcessBlock would
-// execute the block on (for access-list driven execution: shared cached reader plus
-// access-list-hint prefetcher), and the clean-up that ProcessBlock defers.
-func (bc *BlockChain) VerifExecsimSetupState(parentRoot common.Hash, block *types.Block, wantWitness bool) (*state.StateDB, func(), error) {
-	var (
-		interrupt atomic.Bool
-		execIndex atomic.Int64
-	)
-	execIndex.Store(-1)
-	statedb, cleanup, err := bc.setupExecutionState(parentRoot, block, ExecuteConfig{MakeWitness: wantWitness}, &interrupt, &execIndex)
-	if err != nil {
-		return nil, nil, err
-	}
-	return statedb, func() { interrupt.Store(true); cleanup(nil) }, nil
-}
 
 // VerifExecsimUsesAccessList reports whether ProcessBlock would take the
 // access-list driven parallel path for this block.
